@@ -450,8 +450,9 @@ class Optic:
         """
         vx, vy = self.fields.get_vig_factor(Hx, Hy)
 
-        Px *= (1 - vx)
-        Py *= (1 - vy)
+        # out of place: the caller's arrays must not be modified
+        Px = Px * (1 - vx)
+        Py = Py * (1 - vy)
 
         # assure all variables are arrays of the same size
         max_size = max([np.size(arr) for arr in [Hx, Hy, Px, Py]])
